@@ -579,6 +579,31 @@ def boxed(rnd):
     return _names(m)
 
 
+def flips(rnd):
+    """boxes of unequal width, costs whose sign makes the all-slack basis dual feasible, and rows that ask for more than the first
+    few columns can give inside their boxes: the dual simplex starts in phase II and its long-step ratio test passes several boxed
+    breakpoints (bound flips) in one iteration before it pivots; some rows are range rows (boxed logicals)"""
+    sense = rnd.choice([MIN, MAX])
+    m = LP("flips", sense)
+    nc = rnd.randint(3, 9)
+    for j in range(nc):
+        lo = F(rnd.randint(-2, 2)) if rnd.random() < 0.4 else F(0)
+        cost = F(rnd.randint(1, 9)) / rnd.choice([1, 1, 2, 3])
+        # nonbasic at lower is dual feasible for MIN with cost >= 0 (MAX: cost <= 0)
+        m.cols.append(Col(None, cost if sense == MIN else -cost, lo, lo + F(rnd.randint(1, 6)) / rnd.choice([1, 1, 2])))
+    for i in range(rnd.randint(1, 4)):
+        sub = rnd.sample(m.cols, rnd.randint(2, nc))
+        coef = {c: F(rnd.choice([1, 1, 1, 2, 3])) for c in sub}
+        lw = sum((a * c.lo for c, a in coef.items()), F(0))
+        hi = sum((a * c.up for c, a in coef.items()), F(0))
+        need = lw + (hi - lw) * F(rnd.randint(1, 9), 10)
+        if rnd.random() < 0.35:
+            m.rows.append(Row(None, "R", need, F(rnd.randint(0, 3)), coef))
+        else:
+            m.rows.append(Row(None, "G", need, 0, coef))
+    return _names(m)
+
+
 def big(rnd):
     """planted-optimal LPs large enough that a solve goes through several refactorizations (eta limit 100) in both phases"""
     if rnd.random() < 0.4:
@@ -603,6 +628,8 @@ def family(rnd, name):
         return big(rnd)
     if name == "boxed":
         return boxed(rnd)
+    if name == "flips":
+        return flips(rnd)
     if name == "small-rand":
         return small_rand(rnd)
     if name == "small-int":
